@@ -162,3 +162,103 @@ def addedA : List Tok := [⟨[4,1],[32],13,14⟩, ⟨[0,6],[84,104,97,110,107,11
 def lintA : LintM := ⟨1, 10, 11, 6, [[0,102,111,117,114]], msgA, 63⟩
 
 end Harper.Ignore
+
+namespace Harper.Ignore
+
+/-! ### w26-s7: "only that lint" — membership after one / several `ignore_lint` calls -/
+
+theorem isIgnored_iff_mem {s : IgnoreSet} {l : LintM} {toks : List Tok} :
+    isIgnored s l toks = true ↔ contextOf l toks ∈ s := by
+  unfold isIgnored
+  exact List.contains_iff_mem
+
+theorem isIgnored_eq_false_iff {s : IgnoreSet} {l : LintM} {toks : List Tok} :
+    isIgnored s l toks = false ↔ contextOf l toks ∉ s := by
+  rw [← isIgnored_iff_mem]
+  cases isIgnored s l toks <;> simp
+
+/-- the master equation of `ignore_lint` followed by `is_ignored` (any two documents) -/
+theorem isIgnored_ignoreLint (s : IgnoreSet) (l₁ l₂ : LintM) (toks₁ toks₂ : List Tok) :
+    isIgnored (ignoreLint s l₁ toks₁) l₂ toks₂
+      = (isIgnored s l₂ toks₂ || decide (contextOf l₂ toks₂ = contextOf l₁ toks₁)) := by
+  rw [Bool.eq_iff_iff]
+  simp [isIgnored, ignoreLint, mem_insertCtx]
+
+/-- several `ignore_lint` calls in a row (same document) -/
+theorem mem_foldl_ignoreLint (ls : List LintM) (toks : List Tok) (s : IgnoreSet) (c : Context) :
+    c ∈ ls.foldl (fun s l => ignoreLint s l toks) s ↔ c ∈ s ∨ ∃ l ∈ ls, c = contextOf l toks := by
+  induction ls generalizing s with
+  | nil => simp
+  | cons x xs ih =>
+    rw [List.foldl_cons, ih]
+    simp only [ignoreLint, mem_insertCtx, List.mem_cons]
+    constructor
+    · rintro ((h | h) | ⟨l, hl, h⟩)
+      · exact Or.inl h
+      · exact Or.inr ⟨x, Or.inl rfl, h⟩
+      · exact Or.inr ⟨l, Or.inr hl, h⟩
+    · rintro (h | ⟨l, rfl | hl, h⟩)
+      · exact Or.inl (Or.inl h)
+      · exact Or.inl (Or.inr h)
+      · exact Or.inr ⟨l, hl, h⟩
+
+/-- several `ignore_lint` calls are one `append` of their contexts -/
+theorem foldl_ignoreLint_eq_append (ls : List LintM) (toks : List Tok) (s : IgnoreSet) :
+    ls.foldl (fun s l => ignoreLint s l toks) s = append s (ls.map (contextOf · toks)) := by
+  unfold append ignoreLint
+  rw [List.foldl_map]
+
+/-- the lints the ids of `ids` stand for, in the order listed (unknown ids dropped) -/
+def idLints (lints : List LintM) (ids : List Nat) : List LintM :=
+  ids.filterMap (fun i => lints.find? (·.id == i))
+
+theorem ignoreIds_eq_foldl (lints : List LintM) (toks : List Tok) (ids : List Nat) (s : IgnoreSet) :
+    ignoreIds s lints toks ids = (idLints lints ids).foldl (fun s l => ignoreLint s l toks) s := by
+  induction ids generalizing s with
+  | nil => rfl
+  | cons i is ih =>
+    unfold ignoreIds idLints
+    rw [List.filterMap_cons]
+    cases h : lints.find? (·.id == i) with
+    | none => simp only []; rw [ih]; rfl
+    | some l => simp only [List.foldl_cons]; rw [ih]; rfl
+
+theorem mem_idLints {lints : List LintM} {ids : List Nat} {l : LintM} :
+    l ∈ idLints lints ids ↔ ∃ i ∈ ids, lints.find? (·.id == i) = some l := by
+  simp [idLints, List.mem_filterMap]
+
+/-- a lint picked by id is one of the lints and carries that id -/
+theorem idLints_sub {lints : List LintM} {ids : List Nat} {l : LintM} (h : l ∈ idLints lints ids) :
+    l ∈ lints ∧ l.id ∈ ids := by
+  obtain ⟨i, hi, hf⟩ := mem_idLints.mp h
+  have h1 := List.mem_of_find?_eq_some hf
+  have h2 := List.find?_some hf
+  have : l.id = i := by simpa using h2
+  exact ⟨h1, this ▸ hi⟩
+
+theorem mem_ignoreIds (lints : List LintM) (toks : List Tok) (ids : List Nat) (s : IgnoreSet)
+    (c : Context) :
+    c ∈ ignoreIds s lints toks ids ↔ c ∈ s ∨ ∃ l ∈ idLints lints ids, c = contextOf l toks := by
+  rw [ignoreIds_eq_foldl, mem_foldl_ignoreLint]
+
+/-! ### w26-s7 witness data: twins inside one document. `a thier a thier` — the same misspelling
+twice with the same neighbours (kinds as the harness encodes them: `[0,k]` word, `[4,1]` space). -/
+
+def toksT : List Tok := [⟨[0,1],[97],0,1⟩, ⟨[4,1],[32],1,2⟩, ⟨[0,0],[116,104,105,101,114],2,7⟩,
+  ⟨[4,1],[32],7,8⟩, ⟨[0,1],[97],8,9⟩, ⟨[4,1],[32],9,10⟩, ⟨[0,0],[116,104,105,101,114],10,15⟩]
+/-- spelling lint on the first `thier` -/
+def lintT₁ : LintM := ⟨0, 2, 7, 0, [[0,116,104,101,105,114]], [63], 63⟩
+/-- spelling lint on the second `thier`: other id, other span, everything hashed equal -/
+def lintT₂ : LintM := ⟨1, 10, 15, 0, [[0,116,104,101,105,114]], [63], 63⟩
+/-- a third lint on the second `thier` with another message (e.g. another rule) -/
+def lintT₃ : LintM := ⟨2, 10, 15, 3, [], [64], 31⟩
+
+/-- `teh cat. teh cat.`: the same misspelling twice, but the first one starts the document —
+`pulled_by(2)` is `None` there, its context has no tokens before it -/
+def toksU : List Tok := [⟨[0,0],[116,101,104],0,3⟩, ⟨[4,1],[32],3,4⟩, ⟨[0,1],[99,97,116],4,7⟩,
+  ⟨[1,4],[46],7,8⟩, ⟨[4,1],[32],8,9⟩, ⟨[0,0],[116,101,104],9,12⟩, ⟨[4,1],[32],12,13⟩,
+  ⟨[0,1],[99,97,116],13,16⟩, ⟨[1,4],[46],16,17⟩]
+def lintU₁ : LintM := ⟨0, 0, 3, 0, [[0,116,104,101]], [63], 63⟩
+def lintU₂ : LintM := ⟨1, 9, 12, 0, [[0,116,104,101]], [63], 63⟩
+
+end Harper.Ignore
